@@ -161,11 +161,15 @@ class World(object):
                '        %s.pop(request.args["k"], None)\n'
                '    elif op == "clear":\n'
                '        %s.clear()\n'
+               '    elif op == "set403":\n'
+               '        %s[request.args["k"]] = JSON.loads(request.args["v"])\n'
+               '        return FORBIDDEN("after storing")\n'
                '    elif op == "logout":\n'
                '        %s.set_expires()\n'
                '    return RESP(JSON.dumps({"before": before, "after": dict(%s)}, sort_keys=True), status=201)\n'
-               % ((arg,) * 7))
-        ns = {'JSON': json, 'RESP': Response}
+               % ((arg,) * 8))
+        from clastic.errors import Forbidden
+        ns = {'JSON': json, 'RESP': Response, 'FORBIDDEN': Forbidden}
         exec(src, ns)
         # post/redirect/get: the same operations on a route whose render step is clastic's Redirector
         exec('def ep_go(%s, request):\n    ep(%s, request)\n    return {"done": 1}\n' % (arg, arg), ns)
@@ -217,7 +221,8 @@ def initial_state():
 
 CLIENT_OPS = {
     0: [('set', 'a', 0), ('set', 'a', 1), ('set', u'\xe9', 2), ('set', 'a', 3), ('set', 'b', 4), ('delete', 'a', None),
-        ('read', None, None), ('clear', None, None), ('logout', None, None), ('set-r', 'b', 1), ('read-r', None, None)],
+        ('read', None, None), ('clear', None, None), ('logout', None, None), ('set-r', 'b', 1), ('read-r', None, None),
+        ('set403', 'b', 3)],      # stores, then answers with a *returned* 403: what was stored is saved all the same
     1: [('set', 'a', 0), ('set', u'\xe9', 2), ('read', None, None), ('read-r', None, None)],
 }
 TAMPERS = ['flip-mac', 'flip-mac-lowbits', 'flip-key', 'flip-payload', 'truncate', 'extend-item', 'extend-amp',
@@ -324,6 +329,9 @@ def successors(w, state):
             elif op.endswith('-r'):
                 if res.code != 303:
                     bad = ('status-%s' % res.code, 'status %s instead of the redirect 303' % res.status)
+            elif op == 'set403':
+                if res.code != 403:
+                    bad = ('status-%s' % res.code, 'status %s instead of the returned 403' % res.status)
             elif res.code != 201:
                 bad = ('status-%s' % res.code, 'status %s instead of the endpoint\'s 201' % res.status)
             else:
@@ -331,7 +339,7 @@ def successors(w, state):
                 if seen['before'] != json.loads(json.dumps(model)):
                     bad = ('presented', 'endpoint was presented %r, expected %r' % (seen['before'], model))
             after = dict(model)
-            if op in ('set', 'set-r'):
+            if op in ('set', 'set-r', 'set403'):
                 after[k] = VALUES[vi]
             elif op == 'delete':
                 after.pop(k, None)
@@ -470,6 +478,52 @@ def check_two_cookies(acc):
     acc.outcome('two-cookies')
 
 
+def check_sibling_cookie_apps(acc):
+    """Two applications, each with a SignedCookieMiddleware of its own (own secret, own expiry), embedded side by side
+    in one parent - in both orders, with the same and with different cookie names: each keeps verifying with its own
+    secret; a cookie the other one issued presents nothing."""
+    import itertools
+    from clastic import Application
+    from clastic.middleware.cookie import SignedCookieMiddleware
+    from werkzeug.wrappers import Response
+
+    def ep(cookie, request):
+        before = dict(cookie)
+        if request.args.get('v'):
+            cookie['who'] = request.args['v']
+        return Response(json.dumps(before, sort_keys=True), status=201)
+    for order in (('blog', 'admin'), ('admin', 'blog')):
+        for parent_mw in (False,):     # (a cookie middleware on the parent would displace the others: unique type)
+            subs = {'blog': Application([('/', ep)], middlewares=[SignedCookieMiddleware(secret_key=b'blog-key')]),
+                    'admin': Application([('/', ep)], middlewares=[SignedCookieMiddleware(secret_key=b'admin-key', expiry=EXPIRY)])}
+            pm = [SignedCookieMiddleware(secret_key=b'parent-key', arg_name='pc', cookie_name='pc')] if parent_mw else []
+            root = Application([('/' + name, subs[name]) for name in order], middlewares=pm)
+            issued = {}
+            for name in order:
+                res = wsgi.call(root, '/' + name + '/', 'GET', query='v=' + name)
+                acc.transitions += 1
+                for sc in res.header_all('Set-Cookie') if res.headers else ():
+                    nm, _, rest = sc.partition('=')
+                    if nm == 'clastic_cookie':
+                        issued[name] = rest.split(';', 1)[0]
+            for holder, target in itertools.product(order, repeat=2):
+                case = {'sibling_cookie_apps': True, 'order': list(order), 'parent_mw': parent_mw}
+                if holder not in issued:
+                    acc.violation('C16:siblings:no-cookie', 'application %s issued no cookie; %r' % (holder, case), case)
+                    continue
+                res = wsgi.call(root, '/' + target + '/', 'GET', headers={'Cookie': 'clastic_cookie=' + issued[holder]})
+                acc.transitions += 1
+                acc.validated += 1
+                want = {'who': holder} if holder == target else {}
+                got = json.loads(res.body.decode('utf-8')) if res.code == 201 else None
+                if got is not None:
+                    got.pop('_expires', None)
+                if got != want:
+                    acc.violation('C16:siblings:presented', 'the cookie issued by %s, sent to %s, presented %r (status %s), expected %r; %r'
+                                  % (holder, target, got, res.status, want, case), case)
+    acc.outcome('sibling-cookie-apps')
+
+
 def configs():
     return [(e, c, x) for e in ('session', 'never', 'numeric') for c in (False, True) for x in (True, False)] + \
            [('numeric-deprecated', False, True), ('session', False, 'unicode'), ('numeric', False, 'unicode')]
@@ -490,6 +544,8 @@ def shard(tier, i, n, seed):
             break
     if i == 4 % n:
         check_two_cookies(acc)
+    if i == 5 % n:
+        check_sibling_cookie_apps(acc)
     return acc
 
 
@@ -514,6 +570,10 @@ def replay(case):
 
 def _replay(case):
     common.setup_repo()
+    if case.get('sibling_cookie_apps'):
+        acc = common.Acc()
+        check_sibling_cookie_apps(acc)
+        return (False, acc.violations[0]['desc']) if acc.violations else (True, 'ok')
     if case.get('two_cookies'):
         acc = common.Acc()
         check_two_cookies(acc)
